@@ -63,6 +63,9 @@ var vOIDs = []vOIDChoice{
 	{OIDData, vOIDData},
 	{encasn1.ObjectIdentifier{1, 3, 6, 1, 4, 1, 311, 2, 1, 4}, vOIDSpc},
 	{encasn1.ObjectIdentifier{1, 2, 3, 4}, vOIDOther},
+	// a long content type: its attribute encodes longer than the signing-time attribute, so any
+	// reordering of the attribute set (e.g. DER SET OF sorting) changes the bytes
+	{encasn1.ObjectIdentifier{1, 3, 6, 1, 4, 1, 311, 2, 1, 4, 5, 6, 7, 8, 9, 10, 11}, append([]byte{0x06, 0x11}, append(append([]byte{}, vOIDSpc[2:]...), 5, 6, 7, 8, 9, 10, 11)...)},
 }
 
 // vRefSignedAttrs is the DER SET of the signed attributes (RFC 2315 §9.2): content type, signing
@@ -136,10 +139,10 @@ func VC05_DERvsReference() {
 	content = content[:vsym.Concrete(len(content), 1<<17)]
 	signer := vsym.Signer("k1")
 	rawLens := []int{5, 140, 300}
-	raw := vsym.BytesN("cert.raw", rawLens[vsym.Pick("raw.len", vsymC05RawLens)])
-	issuer := vsym.BytesN("issuer", 3)
+	vsym.CertRawLen(rawLens[vsym.Pick("raw.len", vsymC05RawLens)])
 	serial := vSerial()
-	cert := vsym.Cert(signer, raw, issuer, serial)
+	cert := vsym.Cert(signer, serial)
+	raw, issuer := cert.Raw, cert.RawIssuer
 	out, err := SignPKCS7(signer, cert, oid.oid, content)
 	vsym.Assert(err == nil, "signing succeeds")
 	now := time.Now().UTC()
